@@ -153,7 +153,23 @@ impl World {
         Ok(World { keys, issuers: Vec::new(), bus })
     }
 
+    /// Executes an operation and, when it asks for it, stores the new certificate as an issuer slot.
     pub fn exec(&mut self, op: &Op) -> OpResult {
+        let (res, slot) = self.exec_ro(op);
+        if let Some(s) = slot {
+            self.issuers.push(s);
+        }
+        res
+    }
+
+    /// Executes an operation against a shared, immutable world (what concurrent callers do).
+    pub fn exec_ro(&self, op: &Op) -> (OpResult, Option<IssuerSlot>) {
+        let mut new_issuer: Option<IssuerSlot> = None;
+        let res = self.exec_inner(op, &mut new_issuer);
+        (res, new_issuer)
+    }
+
+    fn exec_inner(&self, op: &Op, new_issuer: &mut Option<IssuerSlot>) -> OpResult {
         let call0 = self.bus.n_calls();
         let mut res = OpResult { ret: Ret::Skipped("?"), artefacts: vec![], calls: vec![], params_preserved: None, params_detail: String::new() };
         match op {
@@ -181,7 +197,7 @@ impl World {
                         });
                         res.ret = Ret::Ok(der);
                         if *store {
-                            self.issuers.push(IssuerSlot { cert, key: *key, recipe: recipe.clone() });
+                            *new_issuer = Some(IssuerSlot { cert, key: *key, recipe: recipe.clone() });
                         }
                     }
                     Ok(Err(e)) => res.ret = Ret::Err(err_name(&e)),
@@ -227,7 +243,7 @@ impl World {
                         });
                         res.ret = Ret::Ok(der);
                         if *store {
-                            self.issuers.push(IssuerSlot { cert, key: *subject, recipe: recipe.clone() });
+                            *new_issuer = Some(IssuerSlot { cert, key: *subject, recipe: recipe.clone() });
                         }
                     }
                     Ok(Err(e)) => res.ret = Ret::Err(err_name(&e)),
